@@ -1,7 +1,7 @@
 // General compile-and-scan harness (C01-C05, C12): one case per line, key=value tokens, in order:
 //   <id> [ns=<name>] src=<hex rule text> ...   (each src is one yr_compiler_add_string call, in the preceding ns)
 //        [cext=<t>:<name>:<val>]* [atomq=<hex table>] [strict=1] [dis=<rule positions>: yr_rule_disable]
-//        [rext=<t>:<name>:<val>]* [sext=<t>:<name>:<val>]* [fast=1] [atoms=1] [cands=1] [info=1]
+//        [rext=<t>:<name>:<val>]* [sext=<t>:<name>:<val>]* [fast=1] [atoms=1] [cands=1] [info=1] [mmd=<YR_CONFIG_MAX_MATCH_DATA for this case>]
 //        buf=<hex> [blocks=<n1>,<n2>,...]
 // output: <id> OK rules=<ns>:<rule>=<0|1>,... m=<rule>.<$id>@<off>:<len>:<xorkey>[p];... [atoms=...] [cands=...] [info=...]
 //      or <id> CERR <errname> <line>     or <id> SERR <errname>
@@ -155,7 +155,7 @@ int main()
     VF_ERRS errs = {{0}, 0, 0};
     const char* ns = NULL; int fast = 0, want_atoms = 0, want_cands = 0, want_info = 0, want_actab = 0, want_nsm = 0;
     uint8_t* buf = NULL; size_t buflen = 0; uint8_t* atomq = NULL; size_t atomqlen = 0;
-    size_t cuts[64]; int ncuts = -1;
+    size_t cuts[64]; int ncuts = -1; int mmd = -1; size_t actab_max = 40000;   // actab=<n> with n > 1 raises the dump limit
     int failed = 0, i;
     yr_compiler_create(&comp);
     yr_compiler_set_callback(comp, vf_compiler_cb, &errs);
@@ -172,9 +172,10 @@ int main()
       if (!strncmp(toks[i], "atoms=", 6)) want_atoms = 1;
       else if (!strncmp(toks[i], "cands=", 6)) want_cands = 1;
       else if (!strncmp(toks[i], "info=", 5)) want_info = 1;
-      else if (!strncmp(toks[i], "actab=", 6)) want_actab = 1;
+      else if (!strncmp(toks[i], "actab=", 6)) { want_actab = 1; if (atoi(toks[i] + 6) > 1) actab_max = (size_t) atoi(toks[i] + 6); }
       else if (!strncmp(toks[i], "nsm=", 4)) want_nsm = 1;
       else if (!strncmp(toks[i], "fast=", 5)) fast = atoi(toks[i] + 5);
+      else if (!strncmp(toks[i], "mmd=", 4)) mmd = atoi(toks[i] + 4);
       else if (!strncmp(toks[i], "atomq=", 6)) atomq = unhex(toks[i] + 6, &atomqlen);
       else if (!strncmp(toks[i], "buf=", 4)) buf = unhex(toks[i] + 4, &buflen);
       else if (!strncmp(toks[i], "blocks=", 7))
@@ -242,6 +243,7 @@ int main()
       yr_scanner_set_flags(sc, (fast ? SCAN_FLAGS_FAST_MODE : 0) | SCAN_FLAGS_REPORT_RULES_MATCHING | SCAN_FLAGS_REPORT_RULES_NOT_MATCHING);
       yr_scanner_set_callback(sc, scan_cb, &st);
       yr_verif_on_candidate = want_cands ? on_cand : NULL;
+      if (mmd >= 0) yr_set_configuration_uint32(YR_CONFIG_MAX_MATCH_DATA, (uint32_t) mmd);
       emit("%s OK rules=", toks[0]);
       int rc;
       if (!buf) { buf = (uint8_t*) malloc(1); buflen = 0; }
@@ -254,6 +256,7 @@ int main()
       }
       else rc = yr_scanner_scan_mem(sc, buf, buflen);
       yr_verif_on_candidate = NULL;
+      if (mmd >= 0) yr_set_configuration_uint32(YR_CONFIG_MAX_MATCH_DATA, 512);   // DEFAULT_MAX_MATCH_DATA
       if (rc) printf("%s SERR %s\n", toks[0], errname(rc));
       else
       {
@@ -284,7 +287,7 @@ int main()
         {
           size_t nt = yr_arena_get_current_offset(rules->arena, YR_AC_TRANSITION_TABLE) / sizeof(YR_AC_TRANSITION);
           size_t np = yr_arena_get_current_offset(rules->arena, YR_AC_STATE_MATCHES_POOL) / sizeof(YR_AC_MATCH);
-          if (nt > 40000) emit(" actab=TOOBIG");
+          if (nt > actab_max) emit(" actab=TOOBIG:%zu", nt);
           else
           {
             emit(" act=");
